@@ -363,6 +363,67 @@ def check_by_name(src, D, names, mob, fr, rule, mode, arg, r, viol, tag):
     return True
 
 
+# ------------------------------------------------------------------------------------------------------
+# stage 'dispatch': the parameter object selects rule and post-processing by documented string (any string containing the
+# keywords) or by integer constant, at construction or through the setters; each way must select the same function
+
+RULE_NAMES = {'wiener upper': ['wiener upper', 'upper wiener', 'Wiener upper bound'.lower()],
+              'wiener lower': ['wiener lower', 'lower wiener'],
+              'hashin upper': ['hashin upper', 'hashin-shtrikman upper', 'upper hashin'],
+              'hashin lower': ['hashin lower', 'hashin-shtrikman lower', 'lower hashin'],
+              'lab': ['lab', 'labyrinth']}
+RULE_IDS = {'wiener upper': 'WIENER_UPPER', 'wiener lower': 'WIENER_LOWER', 'hashin upper': 'HASHIN_UPPER',
+            'hashin lower': 'HASHIN_LOWER', 'lab': 'LABYRINTH'}
+POST_IDS = {'none': 'NO_POST', 'predefined': 'PREDEFINED', 'majority': 'MAJORITY', 'exclude': 'EXCLUDE'}
+
+
+def run_dispatch(case):
+    rule, how = case['rule'], case['how']
+    HP = hp.HomogenizationParameters
+    viol = []
+    mob = np.array([[1e-18, 3e-17, 2e-16], [5e-15, 1e-18, 2e-16], [2e-20, 7e-19, 2e-16]])
+    fr = np.array([0.2, 0.5, 0.3])
+    n = 0
+    for lab in LABS:
+        want = _rule_fn(rule)(mob.copy(), fr.copy(), labyrinth_factor=lab) if rule == 'lab' else _rule_fn(rule)(mob.copy(), fr.copy())
+        sels = [('name:' + nm, nm) for nm in RULE_NAMES[rule]] + [('id', getattr(HP, RULE_IDS[rule]))]
+        for label, sel in sels:
+            try:
+                if how == 'ctor':
+                    prm = HP(sel, labyrinthFactor=lab)
+                else:
+                    other = 'wiener lower' if rule != 'wiener lower' else 'hashin upper'
+                    prm = HP(other)
+                    prm.setHomogenizationFunction(sel)
+                    prm.setLabyrinthFactor(lab)
+                got = prm.homogenizationFunction(mob.copy(), fr.copy(), labyrinth_factor=prm.labyrinthFactor)
+            except Exception as e:
+                viol.append({'sig': 'dispatch/rule/exception/%s/%s' % (rule, label.split(':')[0]),
+                             'msg': '%s selected by %r (%s): %s: %s' % (rule, sel, how, type(e).__name__, e)})
+                continue
+            n += 1
+            if np.asarray(got).tobytes() != np.asarray(want).tobytes():
+                viol.append({'sig': 'dispatch/rule/wrong-function/%s/%s' % (rule, label.split(':')[0]),
+                             'msg': '%s selected by %r (%s, labyrinth factor %r) gives %r, the rule itself %r' % (rule, sel, how, lab, got, want)})
+    # labyrinth factor outside [1, 2] is documented to be clipped
+    for lab, want in ((0.5, 1), (3, 2), (1.25, 1.25)):
+        prm = HP('lab', labyrinthFactor=1)
+        prm.setLabyrinthFactor(lab)
+        n += 1
+        if prm.labyrinthFactor != want:
+            viol.append({'sig': 'dispatch/labyrinth-factor-clip', 'msg': 'setLabyrinthFactor(%r) stores %r, documented %r' % (lab, prm.labyrinthFactor, want)})
+    # post-processing by name and by constant
+    for mode, idn in POST_IDS.items():
+        a, b = HP(rule, postProcessFunction=mode, postProcessArgs=['X']), HP(rule, postProcessFunction=getattr(HP, idn), postProcessArgs=['X'])
+        c = HP(rule)
+        c.setPostProcessFunction(getattr(HP, idn), ['X'])
+        n += 2
+        if not (a.postProcessFunction is b.postProcessFunction is c.postProcessFunction) or a.postProcessParameters != c.postProcessParameters:
+            viol.append({'sig': 'dispatch/post/%s' % mode, 'msg': 'post-processing %r by name, by constant and through the setter select %r / %r / %r'
+                         % (mode, a.postProcessFunction, b.postProcessFunction, c.postProcessFunction)})
+    return {'viol': viol, 'states': n, 'transitions': n, 'outcome': '%s/%s' % (rule, how)}
+
+
 def run_post(case):
     D, names = case['D'], case['S']
     viol = []
@@ -645,6 +706,7 @@ def run(ctx):
         for f in frs:
             acases.append({'P': P, 'fr': f, 'lat': lat})
     ctx.product_run('avg', 'checks.c17:run_avg', acases, chunksize=1)
+    ctx.product_run('dispatch', 'checks.c17:run_dispatch', [{'rule': r, 'how': h} for r in RULES for h in ('ctor', 'setter')])
 
     pcases = []
     for D in ([['A', 'B', 'C']] if quick else [['A', 'B', 'C'], ['A', 'B', 'C', 'D']]):
